@@ -263,11 +263,15 @@ func simple(s Stmt) bool {
 func (r *renderer) block(body []Stmt, depth int) {
 	for i := 0; i < len(body); i++ {
 		st := body[i]
+		r.depth = depth
 		// optionally join simple statements with ；
 		if r.l.Semis && simple(st) && i+1 < len(body) && simple(body[i+1]) && r.l.coin() {
 			a := r.simpleStmt(st)
 			b := r.simpleStmt(body[i+1])
-			if !strings.ContainsAny(a+b, "\r\n") {
+			// (also when the first one spans several lines - a bracket or a text continued on
+			// the next line: the second one stands after the ； on its last line and still
+			// belongs to this block)
+			if a != "" && b != "" {
 				r.emit(depth, a+r.l.p("；", ";")+b)
 				i++
 				continue
